@@ -5,15 +5,16 @@ from .. import imgcfg
 from ..oracles import image as OI
 
 ID = "C04"
-CASES = {"quick": 640, "thorough": 12000}
-MIN_NONTRIVIAL = {"quick": 120, "thorough": 2500}
+CASES = {"quick": 640, "thorough": 250000}
+MIN_NONTRIVIAL = {"quick": 120, "thorough": 18874}
 KINDS = ["gaussian/isotropic", "gaussian/axis-aligned", "gaussian/correlated |r|<0.925", "gaussian/correlated |r|>=0.925", "uniform", "user kernel"]
-REQUIRED = ["pixel == sum weight*mass [%s]" % k for k in KINDS] + ["image axes are (birth, persistence)", "image shape == resolution"]
+REQUIRED = ["pixel == sum weight*mass [%s]" % k for k in KINDS] + ["image axes are (birth, persistence)", "image shape == resolution",
+                                                                   "sibling configuration evaluated in the same process is also right"]
 RULE = ("one case = one imager configuration (ranges that do / do not divide by the pixel size, resolution 1x1..12x9; kernel: scalar, "
         "isotropic, axis-aligned, correlated with r in +-{0.2,0.5,0.74,0.76,0.9,0.93,0.99}, uniform box, a user logistic kernel; "
         "variances 1e-4..1e2 in absolute and pixel units; weight: persistence n in {0.5,1,2,3}, linear_ramp, user callables incl. a "
         "signed one) and one diagram of 0-8 points inside / on pixel borders / on the region border / outside the region, given in "
-        "birth-death (skew=True) or birth-persistence (skew=False) form, float or int. non-trivial = >=2 points, >=2x2 pixels and "
+        "birth-death (skew=True) or birth-persistence (skew=False) form, float or int; half of the cases go on to evaluate sibling configurations (same resolution and origin with another pixel size; same geometry with another kernel parameter) in the same process and then the original again. non-trivial = >=2 points, >=2x2 pixels and "
         "some pixel receiving mass >1e-6 from two different points; distinct = digest of (configuration, diagram)")
 ASSUMPTIONS = ["pixel (i,j) = [b0+i*ps, b0+(i+1)*ps] x [p0+j*ps, p0+(j+1)*ps] from the public birth_range, pers_range, pixel_size",
                "mass by direct integration of the density: exact overlap (uniform), product of 1-D normal masses (axis-aligned), "
@@ -91,6 +92,40 @@ def run_case(ctx, k, rng):
         ctx.check("image axes are (birth, persistence)", float(np.abs(img - want.T).max()) > tol and ok, transposed_error=float(np.abs(img - want.T).max()))
     elif nb != npx:
         ctx.check("image axes are (birth, persistence)", img.shape == (nb, npx) and ok, shape=img.shape)
+    # ---- siblings: configurations that differ from this one in exactly one respect, evaluated in the same process -----
+    # (state that leaks between calls or objects - caches keyed by part of the configuration - shows up here)
+    if ok and rng.random() < 0.5:
+        import copy
+        b0, p0 = geom["birth_range"][0], geom["pers_range"][0]
+        sibs = []
+        fac = float(rng.choice([2.0, 0.5, 1.5]))
+        g2 = {"birth_range": (b0, b0 + (geom["birth_range"][1] - b0) * fac), "pers_range": (p0, p0 + (geom["pers_range"][1] - p0) * fac),
+              "pixel_size": geom["pixel_size"] * fac}
+        sibs.append(("same resolution and origin, other pixel size", g2, kkw, kdesc))
+        kk2, kd2 = copy.deepcopy(kkw), copy.deepcopy(kdesc)
+        if kd2["kind"] == "gaussian" and "kernel_params" in kk2:
+            sg = kk2["kernel_params"]["sigma"]
+            kk2["kernel_params"]["sigma"] = (sg * 4) if isinstance(sg, (int, float)) else (np.asarray(sg, float) * 4)
+            kd2["cov"] = (np.asarray(kd2["cov"], float) * 4).tolist()
+            sibs.append(("same geometry, variance x4", geom, kk2, kd2))
+        elif kd2["kind"] == "uniform":
+            kk2["kernel_params"]["width"] *= 2; kd2["width"] *= 2
+            sibs.append(("same geometry, box width x2", geom, kk2, kd2))
+        for what, gg, kk, kd in sibs:
+            try:
+                ctx.ran(2)
+                Q = Imager(**gg, **kk, **wkw)
+                qi = np.asarray(Q.transform(arg, skew=skew))
+                qpub = {"b0": Q.birth_range[0], "p0": Q.pers_range[0], "ps": Q.pixel_size, "nb": int(Q.resolution[0]), "np": int(Q.resolution[1])}
+                qwant, _ = OI.expected_image(bp, w, kd, qpub)
+                okq = qi.shape == qwant.shape and bool(np.all(np.isfinite(qi))) and float(np.abs(qi - qwant).max()) <= tol
+                ctx.check("sibling configuration evaluated in the same process is also right", okq, sibling=what,
+                          worst=float(np.abs(qi - qwant).max()) if qi.shape == qwant.shape else None, shape=qi.shape)
+            except Exception as e:
+                ctx.exception("sibling configuration evaluated in the same process is also right", e, sibling=what)
+        again = np.asarray(P.transform(arg, skew=skew))
+        ctx.check("original imager unaffected by its siblings", again.shape == img.shape and np.array_equal(again, img),
+                  worst=float(np.abs(again - img).max()) if again.shape == img.shape else None)
     if n >= 2 and nb >= 2 and npx >= 2:
         cnt = sum((np.abs(w[t]) * pp > 1e-6).astype(int) for t, pp in enumerate(per_point))
         if np.max(cnt) >= 2:
